@@ -57,6 +57,8 @@ static std::string call(const std::vector<std::string>& a) {
     if (f == "hotp") { get_hotp_code(P(a[2]), Z(a[3]), 1, I(a[4]), TH(a[5])); return "accept"; }
     if (f == "totpat") { get_totp_code_at(P(a[2]), Z(a[3]), 59, I(a[4]), I(a[5]), TH(a[6])); return "accept"; }
     if (f == "totpvalidat") { is_totp_token_valid(1, P(a[2]), Z(a[3]), (uint64_t)59, I(a[4]), I(a[5]), TH(a[6])); return "accept"; }
+    if (f == "totpvalidat_tok") { is_totp_token_valid(I(a[7]), P(a[2]), Z(a[3]), (uint64_t)59, I(a[4]), I(a[5]), TH(a[6])); return "accept"; }
+    if (f == "totpvalidnow_tok") { g_now = strtoll(a[7].c_str(), 0, 10); g_errno = I(a[8]) ? 5 : 0; is_totp_token_valid(I(a[9]), P(a[2]), Z(a[3]), I(a[4]), I(a[5]), TH(a[6])); return "accept"; }
     if (f == "totpnow" || f == "totpvalidnow") {
         g_now = strtoll(a[7].c_str(), 0, 10); g_errno = I(a[8]) ? 5 : 0;
         if (f == "totpnow") get_totp_code(P(a[2]), Z(a[3]), I(a[4]), I(a[5]), TH(a[6]));
